@@ -2,6 +2,7 @@
 import json
 import os
 
+import common as C
 import patterna as A
 from tree import load_history
 
@@ -29,6 +30,35 @@ def samples(files):
     return out
 
 
+DRIVER_B = os.path.join(HERE, "drive_c16b.py")
+
+
+def short_b(h):
+    return "enter(%d)" % h["b"] if h["op"] == "enter" else "append(%s)" % h["which"]
+
+
+def sig_b(clause, hist):
+    return "%s:%s" % (clause, ";".join(short_b(h) for h in hist))
+
+
+def block_views(out_dir, tier, v):
+    """part b: the block views over a unit's GIR (GIRBlockViewer), judged by BlockView.tla"""
+    d = os.path.join(out_dir, "views")
+    os.makedirs(d, exist_ok=True)
+    p = C.run_py(DRIVER_B, [d, tier], timeout=1800)
+    if p.returncode != 0:
+        v.machinery_failure("block-view driver failed: " + p.stderr[-1500:])
+        return [], {"_key": "block_views"}, "BlockView", "BlockView.cfg", sig_b
+    summary = json.loads(p.stdout.strip().splitlines()[-1])
+    if summary["nodes"] < 500:
+        v.machinery_failure("block views: only %d tree nodes (vacuous)" % summary["nodes"])
+    cov = {"_key": "block_views", "tree_nodes_logged": summary["nodes"], "leaves": summary["leaves"], "depth": summary["depth"], "girs": summary["girs"],
+           "rule": "a node = read_block / append_other on a real GIRBlockViewer followed by the whole query battery (len, iteration, indexing, get_all_stmt_ids, "
+                   "query_operation, query_field, contains_stmt_id, get_stmt_by_id, get_stmt_by_pos, read_block, get_block_stmt_ids, boundary_of_multi_blocks); "
+                   "BlockView.tla computes every answer from a scan of the visible statements"}
+    return summary["files"], cov, "BlockView", "BlockView.cfg", sig_b
+
+
 def run(tier, seed):
     return A.run_component(
         PID, tier, seed, DRIVER, "MC_DataModelTrace", "DataModelTrace.cfg",
@@ -39,12 +69,20 @@ def run(tier, seed):
                      "not through DataModel)", "cell values {missing, 1, 2}; one float and one string column (mixed dtypes, "
                      "so DataFrame.values copies)", "Row index of query_index_column_value_first judged only when labels = positions",
                      "TLC, CommunityModules Json"],
-        impl_name="DataModelImpl",
+        impl_name="DataModelImpl", extra_forests=block_views,
         rule="every node of the history tree is one DataModel call; mutations are judged by comparing the pandas frame with the "
              "contract's table, queries by comparing the result with the scan of that table; a trace = one root-to-leaf history")
 
 
 def replay(path):
+    with open(path) as f:
+        d = json.load(f)
+    if d.get("replay", {}).get("gir"):          # a block-view history (part b): show it; the driver re-creates it deterministically
+        print(json.dumps({"gir": d["replay"]["gir"], "statements": d["replay"].get("stmts"), "history": [short_b(h) for h in d["replay"]["history"]],
+                          "clause": d["replay"]["clause"], "answers_of_the_last_view": d["replay"]["history"][-1].get("q")}, indent=1)[:5000])
+        print("re-run: ./check C16 --tier quick   (driver: harness/drive_c16b.py, contract: specs/BlockView.tla)")
+        return 0
+
     def extra(doc):
         hist = doc["replay"]["history"]
         return {"table": doc["replay"].get("table") or {"cols": ["stmt_id", "name"], "rows": [[1, 0], [2, 1], [1, 2]]}}
